@@ -259,7 +259,7 @@ def native_cut(ctx, spec):
         if len(ends) != len(writes):
             return False, spath, f'could not parse the real journal into {len(writes)} units (got {ends})'
         total = ends[-1]
-        cuts = sorted(set([0, 1, 5, 12, 13, 14] + [e + d for e in ends for d in (-13, -12, -5, -4, -1, 0, 1, 2, 13, 14, 20, 22) if 0 <= e + d <= total]))
+        cuts = sorted(set([0, 1, 5, 12, 13, 14] + [e + d for e in ends for d in (-13, -12, -5, -4, -1, 0, 1, 2, 13, 14, 16, 20, 22, 24, 26, 28, 30, 31, 32, 33, 34, 35) if 0 <= e + d <= total]))
         if spec is not None and spec[1] is not None:
             cuts = sorted(set(cuts + [min(total, spec[1])]))
         last = (False, spath, 'held natively')
@@ -296,6 +296,17 @@ def native_cut(ctx, spec):
         shutil.rmtree(work, ignore_errors=True)
 
 
+def native_half_flushed(ctx):
+    from . import c04, oracle
+    last = (False, None, 'not run')
+    for crash in (True, False):
+        v, path, d = oracle.run_program(ctx, c04.half_flushed_batch_program(crash=crash), f'half-flushed-{"crash" if crash else "reopen"}')
+        if v:
+            return True, path, f'batch over two keyspaces, one of them flushed before the {"crash" if crash else "reopen"}: {d}'
+        last = (False, path, 'held natively')
+    return last
+
+
 def run(ctx):
     ctx.assumptions += [
         'F5: xxh3 is modelled as an uninterpreted function that does not collide on the byte strings compared within one query',
@@ -306,11 +317,17 @@ def run(ctx):
     check_framing(ctx, shapes)
     for i, sh in enumerate(shapes):
         check_cuts(ctx, sh, i)
+    # the same cuts on the dev profile (debug assertions compiled in, as `cargo test` and debug builds run): an assertion on bytes read from a torn record must not fire
+    with ctx.dev_profile():
+        check_cuts(ctx, shapes[0], '0/dev-profile')
     check_tx_one_batch(ctx)
     # all-or-nothing also needs the batch to be applied as one unit of the journal order: every apply and the publish under one hold of the journal lock
     # (otherwise a memtable rotation can land inside the batch and recovery, which skips records covered by tables, replays only part of it)
     from . import c06
     c06.check_atomic_publish(ctx, 2)
+    # ... and recovery must replay every item of a complete batch that its keyspace's tables do not cover: a verdict for one item must not decide another
+    from . import c04
+    c04.check_two_item_batch(ctx, confirm=lambda: native_half_flushed(ctx))
     for o in ctx.obligations:
         ctx.samples.append(o.as_dict())
     return ctx.finish()
